@@ -119,13 +119,33 @@ def run_image(case, ctx):
                 if viols:
                     break
         elif op == "norm":
+            if case["i"] % 3 == 0 and n_lead >= 1:
+                # entries of very different magnitude in one block (a field in raw units next to a normalised one):
+                # every entry's norm must be right relative to ITS OWN scale
+                for t in list(blocks):
+                    v = blocks[t].copy()
+                    flat = v.reshape((-1,) + sp + (D,) * t[0])
+                    for j in range(len(flat)):
+                        flat[j] *= [1e15, 1.0, 1e-5][int(rng.integers(3))]
+                    blocks[t] = flat.reshape(v.shape).astype(np.float32)
+                mi = geom.MultiImage({t: jnp.asarray(v) for t, v in blocks.items()}, D, torus)
+                key["magnitudes"] = "mixed 1e15 / 1 / 1e-5"
             out = mi.norm()
             evals += 1
             parts = [np.sqrt((v.reshape(v.shape[: n_lead + D] + (-1,)) ** 2).sum(-1)) for v in blocks.values()]
             want = np.concatenate(parts, axis=n_lead - 1)
             got = np.asarray(out[(0, 0)]) if list(out.keys()) == [(0, 0)] else None
-            if got is None or got.shape != want.shape or err_exact(got, want) > 1e-5:
-                viols.append(viol("multi-norm-crosstalk", f"MultiImage.norm != per-image Frobenius norm (shape {None if got is None else got.shape} vs {want.shape}); {key}"))
+            def per_entry_bad(g_, w_):
+                g2, w2 = g_.reshape((-1,) + sp), w_.reshape((-1,) + sp)
+                for j in range(len(w2)):
+                    sc = max(float(np.max(np.abs(w2[j]))), 1e-30)
+                    if not np.all(np.isfinite(g2[j])) or float(np.max(np.abs(g2[j] - w2[j]))) > 1e-4 * sc:
+                        return j
+                return None
+
+            if got is None or got.shape != want.shape or err_exact(got, want) > 1e-5 or per_entry_bad(got, want) is not None:
+                j = None if (got is None or got.shape != want.shape) else per_entry_bad(got, want)
+                viols.append(viol("multi-norm-crosstalk", f"MultiImage.norm != per-image Frobenius norm (shape {None if got is None else got.shape} vs {want.shape}; first wrong image {j}, relative to its own scale); {key}"))
             else:
                 (k, p), blk = next(iter(blocks.items()))
                 flat = blk.reshape((-1,) + sp + (D,) * k)
